@@ -1,3 +1,239 @@
 // Kani harnesses (child module of crates/axmos-db/src/storage/wal.rs).  See /verif/HARNESS_GUIDE.md
+// C17 — record / block layout: OwnedRecord -> WalBlock::try_push -> RecordRef::from_raw is the identity.
 #![allow(unused_imports, dead_code, clippy::all)]
 use super::*;
+use crate::storage::{WalOps, Writable};
+
+/// block size used by every WAL harness: the smallest size `WalBlock::alloc` accepts (MIN_WAL_BLOCK_SIZE)
+pub(crate) const BS: usize = 4096;
+/// upper bound of `used_bytes` in a `WalBlock` of size BS (`available_space` subtracts the header twice)
+pub(crate) const WB_CAP: usize = BS - 2 * BLOCK_HEADER_SIZE;
+/// same for block zero
+pub(crate) const BZ_CAP: usize = BS - 2 * mem::size_of::<BlockZeroHeader>();
+
+fn okf<T, E>(r: Result<T, E>) -> Option<T> {
+    match r {
+        Ok(v) => Some(v),
+        Err(e) => {
+            std::mem::forget(e);
+            None
+        }
+    }
+}
+
+pub(crate) fn any_record_type() -> RecordType {
+    let k: u8 = kani::any();
+    kani::assume(k < 10);
+    match k {
+        0 => RecordType::Begin,
+        1 => RecordType::Commit,
+        2 => RecordType::Abort,
+        3 => RecordType::End,
+        4 => RecordType::Update,
+        5 => RecordType::Delete,
+        6 => RecordType::Insert,
+        7 => RecordType::Create,
+        8 => RecordType::Drop,
+        _ => RecordType::Alter,
+    }
+}
+
+/// reference model of the on-disk record size: header + payload rounded up so that the whole is a multiple of 8
+fn model_total(u: usize, r: usize) -> usize {
+    let raw = RECORD_HEADER_SIZE + u + r;
+    let rem = raw % 8;
+    if rem == 0 { raw } else { raw + (8 - rem) }
+}
+
+fn bytes_eq(a: &[u8], b: &[u8]) -> bool {
+    if a.len() != b.len() {
+        return false;
+    }
+    let mut i = 0;
+    while i < a.len() {
+        if a[i] != b[i] {
+            return false;
+        }
+        i += 1;
+    }
+    true
+}
+
+// @obl harness=c17_layout_consts id=C17.record_layout tier=quick funcs="RecordHeader,BlockHeader,BlockZeroHeader,WalHeader" bounds="none (constants)"
+#[kani::proof]
+#[kani::unwind(2)]
+fn c17_layout_consts() {
+    kani::cover!(true, "reach");
+    assert!(RECORD_HEADER_SIZE % WAL_RECORD_ALIGNMENT == 0, "record_header_size_aligned");
+    assert!(BLOCK_HEADER_SIZE % WAL_RECORD_ALIGNMENT == 0, "block_header_size_aligned");
+    assert!(mem::size_of::<BlockZeroHeader>() % WAL_RECORD_ALIGNMENT == 0, "block_zero_header_size_aligned");
+    assert!(mem::size_of::<BlockZeroHeader>() == BLOCK_HEADER_SIZE + WAL_HEADER_SIZE, "block_zero_header_is_block_plus_wal_header");
+    assert!(MIN_WAL_BLOCK_SIZE == BS, "min_block_size_is_4096");
+    assert!(mem::align_of::<RecordHeader>() <= WAL_RECORD_ALIGNMENT, "record_header_alignment_fits_record_alignment");
+}
+
+// @obl harness=c17_padded_size id=C17.record_padding tier=quick funcs="OwnedRecord::compute_padded_size" bounds="every payload size 0..=131070 (two u16 lengths)"
+#[kani::proof]
+#[kani::unwind(2)]
+fn c17_padded_size() {
+    let n: usize = kani::any();
+    kani::assume(n <= 2 * (u16::MAX as usize));
+    kani::cover!(true, "reach");
+    let p = OwnedRecord::compute_padded_size(n); // built-in checks: no underflow / overflow
+    assert!(p >= n, "padded_size_not_smaller_than_payload");
+    assert!(p < n + WAL_RECORD_ALIGNMENT, "padded_size_adds_less_than_alignment");
+    assert!((p + RECORD_HEADER_SIZE) % WAL_RECORD_ALIGNMENT == 0, "padded_record_multiple_of_alignment");
+}
+
+/// used_bytes accessor differs between the two block kinds
+macro_rules! used_bytes_mut {
+    (WalBlock, $b:ident) => {
+        $b.metadata_mut().used_bytes
+    };
+    (BlockZero, $b:ident) => {
+        $b.metadata_mut().block_header.used_bytes
+    };
+}
+
+/// OwnedRecord::new -> try_push into a block filled up to `$off` -> RecordRef at that offset.
+/// The fill level is a concrete shape (a symbolic write offset into the 4 KiB block costs > 200 s); the
+/// arithmetic for *every* fill level is covered by `c17_available_space`.
+macro_rules! hround {
+    ($name:ident, $blk:ident, $off:expr, $u:expr, $r:expr) => {
+        #[kani::proof]
+        #[kani::unwind(12)]
+        fn $name() {
+            let lsn: Lsn = kani::any();
+            let tid: TransactionId = kani::any();
+            let prev: Option<Lsn> = kani::any();
+            let oid: Option<ObjectId> = kani::any();
+            let rid: Option<RowId> = kani::any();
+            let rt = any_record_type();
+            let undo: [u8; $u] = kani::any();
+            let redo: [u8; $r] = kani::any();
+            let off: usize = $off;
+            let want = model_total($u, $r);
+            let mut blk = <$blk>::alloc(kani::any(), BS);
+            used_bytes_mut!($blk, blk) = off as u64;
+            kani::cover!(true, "reach");
+
+            let rec = OwnedRecord::new(lsn, tid, prev, oid, rid, rt, &undo, &redo);
+            let total = rec.total_size();
+            assert!(total == want, "record_total_size_is_header_plus_padded_payload");
+            assert!(total % 8 == 0, "record_total_size_multiple_of_8");
+            assert!(rec.metadata().total_size as usize == total, "header_total_size_matches");
+            assert!(bytes_eq(rec.undo_payload(), &undo) && bytes_eq(rec.redo_payload(), &redo), "owned_record_payloads");
+
+            let pushed = okf(blk.try_push(lsn, rec));
+            assert!(pushed == Some(lsn), "try_push_accepts_record_that_fits");
+            assert!(blk.used_bytes() == off + want, "used_bytes_advance_by_record_size");
+            assert!(blk.used_bytes() <= blk.data().len(), "record_inside_block_data");
+            assert!(blk.last_lsn() == Some(lsn), "block_last_lsn_is_record_lsn");
+
+            let rr = blk.record(off as u64);
+            let h = rr.metadata();
+            assert!(h.lsn == lsn, "roundtrip_lsn");
+            assert!(h.tid == tid, "roundtrip_tid");
+            assert!(h.prev_lsn == prev, "roundtrip_prev_lsn");
+            assert!(h.object_id == oid, "roundtrip_object_id");
+            assert!(h.row_id == rid, "roundtrip_row_id");
+            assert!(h.log_type == rt, "roundtrip_kind");
+            assert!(h.undo_len as usize == $u && h.redo_len as usize == $r, "roundtrip_payload_lengths");
+            assert!(rr.total_size() == want, "roundtrip_total_size");
+            assert!(rr.lsn() == lsn && rr.tid() == tid && rr.log_type() == rt, "roundtrip_accessors");
+            assert!(bytes_eq(rr.undo_payload(), &undo), "roundtrip_undo_payload");
+            assert!(bytes_eq(rr.redo_payload(), &redo), "roundtrip_redo_payload");
+            std::mem::forget(blk);
+        }
+    };
+}
+
+// @obl harness=c17_round_0_0 id=C17.record_roundtrip[0/0@0] tier=quick funcs="OwnedRecord::new,WalOps::try_push,WalOps::record,RecordRef::from_raw" bounds="block 4096, empty block; undo 0 redo 0 bytes; all lsn/tid/prev/object/row ids, all 10 kinds"
+hround!(c17_round_0_0, WalBlock, 0, 0, 0);
+// @obl harness=c17_round_1_0 id=C17.record_roundtrip[1/0@8] tier=thorough funcs="OwnedRecord::new,WalOps::try_push,WalOps::record,RecordRef::from_raw" bounds="block 4096, fill level 8; undo 1 redo 0 bytes (values symbolic); all ids, all kinds"
+hround!(c17_round_1_0, WalBlock, 8, 1, 0);
+// @obl harness=c17_round_0_7 id=C17.record_roundtrip[0/7@last] tier=thorough funcs="OwnedRecord::new,WalOps::try_push,WalOps::record,RecordRef::from_raw" bounds="block 4096, fill level such that the record fits exactly; undo 0 redo 7 bytes; all ids, all kinds"
+hround!(c17_round_0_7, WalBlock, WB_CAP - 88, 0, 7);
+// @obl harness=c17_round_7_1 id=C17.record_roundtrip[7/1@80] tier=quick funcs="OwnedRecord::new,WalOps::try_push,WalOps::record,RecordRef::from_raw" bounds="block 4096, fill level 80; undo 7 redo 1 bytes; all ids, all kinds"
+hround!(c17_round_7_1, WalBlock, 80, 7, 1);
+// @obl harness=c17_round_8_9 id=C17.record_roundtrip[8/9@1000] tier=thorough funcs="OwnedRecord::new,WalOps::try_push,WalOps::record,RecordRef::from_raw" bounds="block 4096, fill level 1000; undo 8 redo 9 bytes; all ids, all kinds"
+hround!(c17_round_8_9, WalBlock, 1000, 8, 9);
+// @obl harness=c17_round_9_8 id=C17.record_roundtrip[9/8@last] tier=thorough funcs="OwnedRecord::new,WalOps::try_push,WalOps::record,RecordRef::from_raw" bounds="block 4096, fill level such that the record fits exactly; undo 9 redo 8 bytes; all ids, all kinds"
+hround!(c17_round_9_8, WalBlock, WB_CAP - 104, 9, 8);
+// @obl harness=c17_round_9_9 id=C17.record_roundtrip[9/9@2048] tier=thorough funcs="OwnedRecord::new,WalOps::try_push,WalOps::record,RecordRef::from_raw" bounds="block 4096, fill level 2048; undo 9 redo 9 bytes; all ids, all kinds"
+hround!(c17_round_9_9, WalBlock, 2048, 9, 9);
+// @obl harness=c17_round_bz_7_8 id=C17.record_roundtrip[block0:7/8@last] tier=quick funcs="OwnedRecord::new,WalOps::try_push,WalOps::record,RecordRef::from_raw" bounds="block zero of 4096 bytes, fill level such that the record fits exactly; undo 7 redo 8 bytes; all ids, all kinds"
+hround!(c17_round_bz_7_8, BlockZero, BZ_CAP - 96, 7, 8);
+
+// @obl harness=c17_available_space id=C17.block_space_arith tier=quick funcs="AvailableSpace::available_space,MemBlock::usable_space,MemBlock::capacity" bounds="block 4096 (WalBlock and BlockZero), every used_bytes value 0..=capacity, every record size 80..=4096" assume="used_bytes <= capacity (try_push only ever adds a size it compared against available_space)"
+#[kani::proof]
+#[kani::unwind(2)]
+fn c17_available_space() {
+    let used: usize = kani::any();
+    let size: usize = kani::any();
+    kani::assume(size >= RECORD_HEADER_SIZE && size <= BS);
+    let mut blk = WalBlock::alloc(kani::any(), BS);
+    let mut bz = BlockZero::alloc(0, BS);
+    kani::assume(used <= WB_CAP);
+    blk.metadata_mut().used_bytes = used as u64;
+    bz.metadata_mut().block_header.used_bytes = used as u64;
+    kani::cover!(true, "reach");
+    // a record is accepted iff available_space() >= size; then it must lie inside the data area
+    let a = blk.available_space();
+    assert!(a == WB_CAP - used, "available_space_is_capacity_minus_used");
+    if a >= size {
+        assert!(used + size <= blk.data().len(), "accepted_record_inside_block_data");
+        assert!(used + size <= WB_CAP, "used_bytes_stay_within_capacity");
+    }
+    if used <= BZ_CAP {
+        let z = bz.available_space();
+        assert!(z == BZ_CAP - used, "available_space_is_capacity_minus_used");
+        if z >= size {
+            assert!(used + size <= bz.data().len(), "accepted_record_inside_block_data");
+        }
+    }
+    assert!(blk.data().len() == BS - BLOCK_HEADER_SIZE && bz.data().len() == BS - mem::size_of::<BlockZeroHeader>(), "data_area_is_block_minus_header");
+    std::mem::forget(blk);
+    std::mem::forget(bz);
+}
+
+/// try_push at the boundary: the record (96 bytes) fits exactly / misses by one alignment unit / block full
+macro_rules! hfull {
+    ($name:ident, $off:expr) => {
+        #[kani::proof]
+        #[kani::unwind(12)]
+        fn $name() {
+            let lsn: Lsn = kani::any();
+            let payload: [u8; 9] = kani::any();
+            let off: usize = $off;
+            let mut blk = WalBlock::alloc(kani::any(), BS);
+            blk.metadata_mut().used_bytes = off as u64;
+            let first: Option<Lsn> = kani::any();
+            let last: Option<Lsn> = kani::any();
+            blk.metadata_mut().block_first_lsn = first;
+            blk.metadata_mut().block_last_lsn = last;
+            kani::cover!(true, "reach");
+            let rec = OwnedRecord::new(lsn, kani::any(), None, None, None, RecordType::Insert, &[], &payload);
+            let size = rec.total_size();
+            let fits = off + size <= WB_CAP;
+            let pushed = okf(blk.try_push(lsn, rec));
+            if fits {
+                assert!(pushed == Some(lsn), "try_push_accepts_record_that_fits");
+                assert!(blk.used_bytes() == off + size, "used_bytes_advance_by_record_size");
+                assert!(blk.start_lsn() == if first.is_none() { Some(lsn) } else { first }, "block_first_lsn_set_once");
+                assert!(blk.last_lsn() == Some(lsn), "block_last_lsn_is_record_lsn");
+            } else {
+                assert!(pushed.is_none(), "try_push_rejects_record_that_does_not_fit");
+                assert!(blk.used_bytes() == off, "rejected_push_leaves_used_bytes");
+                assert!(blk.start_lsn() == first && blk.last_lsn() == last, "rejected_push_leaves_lsns");
+            }
+            std::mem::forget(blk);
+        }
+    };
+}
+// @obl harness=c17_try_push_exact id=C17.block_full_rejected[exact_fit] tier=thorough funcs="WalOps::try_push" bounds="block 4096, fill level capacity-96, record of 96 bytes; first/last lsn of the block symbolic"
+hfull!(c17_try_push_exact, WB_CAP - 96);
+// @obl harness=c17_try_push_over id=C17.block_full_rejected[over_by_8] tier=quick funcs="WalOps::try_push" bounds="block 4096, fill level capacity-88, record of 96 bytes"
+hfull!(c17_try_push_over, WB_CAP - 88);
+// @obl harness=c17_try_push_full id=C17.block_full_rejected[full] tier=thorough funcs="WalOps::try_push" bounds="block 4096, fill level = capacity, record of 96 bytes"
+hfull!(c17_try_push_full, WB_CAP);
